@@ -143,6 +143,8 @@ pub(crate) mod gen {
         PSet { name: "bgv_n4_2p1",    scheme: SchemeType::BGV,  n: 4, q: &[97, 113],       t: 17,  expand: true, special: true },
         PSet { name: "ckks_n4_2p1",   scheme: SchemeType::CKKS, n: 4, q: &[97, 113],       t: 0,   expand: true, special: true },
         PSet { name: "bfv_n4",        scheme: SchemeType::BFV,  n: 4, q: &[97, 113, 193],  t: 17,  expand: true, special: false },
+        // N=16 (q = 1 mod 32), batching t = 97: used for the rotation-composition logic (data irrelevant)
+        PSet { name: "bfv_n16_2p1",   scheme: SchemeType::BFV,  n: 16, q: &[193, 257],     t: 97,  expand: true, special: true },
         // N=8 (q = 1 mod 16), batching t = 17
         PSet { name: "bfv_n8_2p1",    scheme: SchemeType::BFV,  n: 8, q: &[97, 113],       t: 17,  expand: true, special: true },
     ];
@@ -191,9 +193,9 @@ mod proofs {
             let cd = chain_at(i);
             let k = q.len() - i;                               // prefix moduli set of this level
             assert!(cd.chain_index == levels - 1 - i);         // strictly decreasing, ending at 0
-            assert!(cd.parms.coeff_modulus.len() == k && cd.parms.poly_modulus_degree == n);
+            assert!(cd.parms.coeff_modulus().len() == k && cd.parms.poly_modulus_degree() == n);
             let mut j = 0; let mut prod: u128 = 1;
-            while j < k { assert!(cd.parms.coeff_modulus[j].value() == q[j]); prod *= q[j] as u128; j += 1; }
+            while j < k { assert!(cd.parms.coeff_modulus()[j].value() == q[j]); prod *= q[j] as u128; j += 1; }
             assert!(cd.qualifiers.parameters_set());
             // doubly linked
             match &cd.next_context_data { Some(nx) => { assert!(i + 1 < levels && nx.parms_id() == chain_at(i + 1).parms_id()); } None => { assert!(i + 1 == levels); } }
